@@ -436,7 +436,7 @@ def dominated_by_fresh_store(f, fld, line):
 def run_c19(pid='C19', tier='quick', seed=0):
     repo = _repo()
     obls = []
-    allowed_in_try = {'hash', 'encode', 'decode', 'decodebytes', 'encodebytes', 'decodestring', '__import__', 'sorted', 'raw_decode', 'items', 'list', 'hasattr', 'construct_scalar', 'bytes'}
+    allowed_in_try = {'lower', 'upper', 'replace', 'startswith', 'endswith', 'int', 'float', 'reverse', 'split', 'append', 'len', 'str', 'hash', 'encode', 'decode', 'decodebytes', 'encodebytes', 'decodestring', '__import__', 'sorted', 'raw_decode', 'items', 'list', 'hasattr', 'construct_scalar', 'bytes'}
     bad, n_try = [], 0
     for f in repo.all_funcs():
         for n in ast.walk(f.node):
@@ -465,7 +465,7 @@ def run_c19(pid='C19', tier='quick', seed=0):
                     if any(isinstance(x, (ast.Return, ast.Break, ast.Continue)) for x in ast.walk(s)):
                         bad.append('%s:%d finally block swallows the exception (return/break/continue)' % (f.qual, n.lineno))
     obls.append(ob('handlers-cannot-catch-stream-or-callback-exceptions', not bad,
-                   'in all %d try statements: handlers name only codec/import/type errors, guarded blocks call only codec/base64/import/sorted functions, finally blocks only dispose()' % n_try, bad[:8]))
+                   'in all %d try statements: handlers name only codec/import/type/value/lookup errors, guarded blocks call only built-in conversions (int, float, str/list methods, hash, sorted), codecs, base64 and __import__ -- never a stream method or a registered constructor/representer; finally blocks only dispose()' % n_try, bad[:8]))
     # stream operations: emitter only write/flush; reader only read (+ getattr name)
     bad = []
     for f in repo.all_funcs():
